@@ -57,6 +57,9 @@ type Out struct {
 	I   int    `json:"i,omitempty"`
 	NF  bool   `json:"nf,omitempty"`
 	Fut bool   `json:"fut,omitempty"`
+	// Tick: while serving this outcome (inside GetIDs, i.e. while a loop iteration runs) the DA double sends a
+	// DA-block tick: a non-blocking send on m.retrieveCh, what SyncLoop's daTicker does (tick scenario only)
+	Tick bool `json:"tick,omitempty"`
 }
 
 type Height struct {
@@ -75,6 +78,9 @@ type Replay struct {
 	History []string `json:"history"` // "signal" | "proc"
 	// Backpressure: instead of a scripted history, the back-pressure scenario (see runBackpressure)
 	Backpressure bool `json:"backpressure,omitempty"`
+	// Ticks: the tick scenario (see genTickCase): a long DA, History = wake-ups sent while the loop is quiescent,
+	// DA-block ticks arrive DURING the iterations (Out.Tick); checked against the two-channel loop model (lturn)
+	Ticks bool `json:"ticks,omitempty"`
 }
 
 func (rp *Replay) boot() uint64 {
@@ -340,6 +346,8 @@ type scriptDA struct {
 	item      int
 	limit     int // more calls than any correct scan of this script can make: the scan runs away
 	runaway   bool
+	tickCh    chan struct{} // tick scenario: m.retrieveCh
+	seen      [][2]bool     // tick scenario, per GetIDs call: (retrieveCh held a value on entry, a tick was sent during the call)
 }
 
 func errText(nf, fut bool, r int) error {
@@ -374,6 +382,9 @@ func (d *scriptDA) GetIDs(ctx context.Context, h uint64, ns []byte) (*coreda.Get
 		panic("c09 harness: runaway scan stopped by the DA double")
 	}
 	defer func() { d.log = append(d.log, c) }()
+	if d.tickCh != nil {
+		d.seen = append(d.seen, [2]bool{len(d.tickCh) == 1, false})
+	}
 	if h < d.boot || h-d.boot >= uint64(len(d.heights)) {
 		c.Served = "fut"
 		return nil, errText(false, true, len(d.log))
@@ -385,6 +396,14 @@ func (d *scriptDA) GetIDs(ctx context.Context, h uint64, ns []byte) (*coreda.Get
 		d.used[k]++
 	}
 	d.cur[h] = &o
+	if o.Tick && d.tickCh != nil {
+		// the DA-block tick of SyncLoop (sync.go: sendNonBlockingSignalToRetrieveCh), arriving while the iteration runs
+		select {
+		case d.tickCh <- struct{}{}:
+		default:
+		}
+		d.seen[len(d.seen)-1][1] = true
+	}
 	switch o.K {
 	case "listerr":
 		c.Served = "err"
@@ -453,6 +472,7 @@ type itemObs struct {
 	Res     int // 0 nil / alive, 1 future, 2 error, 3 panic / dead
 	Panic   string
 	Stalled bool
+	Seen    [][2]bool // tick scenario: the DA double's per-GetIDs-call record
 }
 
 type caseResult struct {
@@ -513,7 +533,15 @@ func runCase(t *testing.T, p *pool, rp *Replay) *caseResult {
 			total += len(h.Outs)
 		}
 		da.used = make([]int, len(rp.DA))
-		da.limit = 12*(total+len(rp.DA)+len(rp.History)) + 200
+		nticks := 0
+		for _, h := range rp.DA {
+			for _, o := range h.Outs {
+				if o.Tick {
+					nticks++
+				}
+			}
+		}
+		da.limit = 12*(total+len(rp.DA)+len(rp.History)+nticks) + 200
 		defer func() { res.runaway = da.runaway }()
 		m, err := newManager(ctx, p, rp, da)
 		if err != nil {
@@ -525,6 +553,9 @@ func runCase(t *testing.T, p *pool, rp *Replay) *caseResult {
 		}
 		for _, i := range rp.SeenD {
 			m.DataCache().SetSeen(p.dataHash[i])
+		}
+		if rp.Ticks {
+			da.tickCh = m.VerifRetrieveCh()
 		}
 		dead := false
 		panicMsg := ""
@@ -544,6 +575,7 @@ func runCase(t *testing.T, p *pool, rp *Replay) *caseResult {
 		for it, kind := range rp.History {
 			da.item = it
 			mark := len(da.log)
+			markSeen := len(da.seen)
 			o := itemObs{}
 			switch kind {
 			case "signal":
@@ -587,6 +619,7 @@ func runCase(t *testing.T, p *pool, rp *Replay) *caseResult {
 			}
 			o.Cursor = m.VerifDAHeight()
 			o.Calls = append([]daCall{}, da.log[mark:]...)
+			o.Seen = append([][2]bool{}, da.seen[markSeen:]...)
 		drain:
 			for {
 				select {
@@ -920,6 +953,12 @@ func oracle(p *pool, rp *Replay, r *caseResult) {
 			}
 		}
 		cur = o.Cursor
+		// liveness: the loop may only go quiet at a height it could not pass.  A loop iteration that passed its
+		// height re-arms itself, so at quiescence the last thing the loop did is a FAILED examination (from the
+		// future / error) of the height after the last passed one -- whatever ticks arrived meanwhile.
+		if rp.History[it] == "signal" && o.Res != 3 && !r.runaway && last != nil && (last.class == "success" || last.class == "notfound") {
+			r.fail("stalled-after-success", fmt.Sprintf("item %d: height %d was fetched (%s) in the loop, but the loop then went quiet without examining height %d (cursor %d); retrieveCh holds %d value(s)", it, last.h, last.class, last.h+1, o.Cursor, map[bool]int{false: 0, true: 1}[o.Stalled]))
+		}
 		if o.Stalled {
 			r.fail("loop-stalled", fmt.Sprintf("item %d: the wake-up was not consumed", it))
 		}
@@ -1101,6 +1140,172 @@ func genCase(r *rand.Rand, seed int64, c int, tier string) *Replay {
 	return rp
 }
 
+// ---- tick scenario: DA-block ticks arrive DURING a catch-up run -------------------------------------------
+//
+// A long DA (quick: 100-400 heights, thorough: up to 900), mostly empty heights (what a catching-up node sees)
+// with some small non-empty ones, a few heights that need retries inside the iteration, a few that fail the
+// whole iteration (ten errors, or "from the future" = the DA head of the moment) so that the loop goes quiet in
+// the middle and is woken again.  The loop is woken by 1-3 signals, each sent while it is quiescent; the ticks
+// are sent by the DA double from inside GetIDs, i.e. while an iteration runs and the continuation token is (about
+// to be) outstanding: at the next select both channels are ready and the runtime takes either.  Tick density per
+// case: one tick only / sparse / dense / every call.
+func genTickCase(r *rand.Rand, seed int64, c int, tier string) *Replay {
+	rp := &Replay{Seed: seed, Case: c, Ticks: true}
+	rp.Start = []uint64{0, 1, 7, 100, 1 << 20}[r.Intn(5)]
+	if r.Intn(5) == 0 {
+		rp.Stored = []uint64{5, 100, 1 << 20}[r.Intn(3)]
+	}
+	for i := 0; i < nHdrAll; i++ {
+		if r.Intn(8) == 0 {
+			rp.SeenH = append(rp.SeenH, i)
+		}
+	}
+	nh := 100 + r.Intn(301)
+	if tier == "thorough" && r.Intn(3) == 0 {
+		nh = 400 + r.Intn(501)
+	}
+	density := []int{0, 2, 10, 35, 100}[r.Intn(5)] // percent of outcomes that carry a tick; 0 = exactly one tick in the case
+	pure := r.Intn(3) == 0                           // every height is served at once: an undisturbed catch-up to the DA head
+	tick := func() bool { return density > 0 && r.Intn(100) < density }
+	for i := 0; i < nh; i++ {
+		h := Height{}
+		if r.Intn(4) == 0 {
+			n := 1 + r.Intn(3)
+			for j := 0; j < n; j++ {
+				h.Blobs = append(h.Blobs, genItem(r, false))
+			}
+		}
+		if !pure {
+			switch x := r.Intn(200); {
+			case x < 12: // retries inside the iteration
+				for j := 1 + r.Intn(3); j > 0; j-- {
+					h.Outs = append(h.Outs, Out{K: "listerr", Tick: tick()})
+				}
+			case x < 14: // the height is not there yet: the iteration fails, the loop waits (or is re-woken by a buffered tick)
+				for j := 1 + r.Intn(2); j > 0; j-- {
+					h.Outs = append(h.Outs, Out{K: "listerr", Fut: true, Tick: tick()})
+				}
+			case x < 15: // ten errors in a row fail the iteration
+				for j := 10 + r.Intn(3); j > 0; j-- {
+					h.Outs = append(h.Outs, Out{K: "listerr", Tick: tick()})
+				}
+			case x < 19:
+				h.Outs = append(h.Outs, Out{K: "listerr", NF: true, Tick: tick()}) // confirmed not-found: passes
+				rp.DA = append(rp.DA, h)
+				continue
+			}
+		}
+		h.Outs = append(h.Outs, Out{K: "ok", Tick: tick()})
+		rp.DA = append(rp.DA, h)
+	}
+	if density == 0 {
+		k := r.Intn(nh * 3 / 4)
+		rp.DA[k].Outs[len(rp.DA[k].Outs)-1].Tick = true
+	}
+	for i := 1 + r.Intn(4); i > 0; i-- {
+		rp.History = append(rp.History, "signal")
+	}
+	return rp
+}
+
+// the input of a tick case (what the distinct count is taken over: the observed part depends on the runtime's
+// choices in select and differs between runs)
+func tickInputKey(rp *Replay) string {
+	var sb strings.Builder
+	fmt.Fprintf(&sb, "%d/%d/%v/%d:", rp.Stored, rp.Start, rp.SeenH, len(rp.History))
+	for _, h := range rp.DA {
+		fmt.Fprintf(&sb, "%v%v;", h.Blobs, h.Outs)
+	}
+	return sb.String()
+}
+
+func isPlainEmpty(h Height) bool { return len(h.Blobs) == 0 && len(h.Outs) == 1 && h.Outs[0].K == "ok" }
+
+func tcaseCoq(p *pool, rp *Replay, cr *caseResult) string {
+	// DA: runs of empty heights served at once are written `repeat HE n`
+	var da []string
+	for i := 0; i < len(rp.DA); {
+		j := i
+		for j < len(rp.DA) && isPlainEmpty(rp.DA[j]) {
+			j++
+		}
+		if j-i >= 2 {
+			da = append(da, fmt.Sprintf("repeat HE %d", j-i))
+			i = j
+			continue
+		}
+		h := rp.DA[i]
+		var segs []string
+		for _, s := range h.Blobs {
+			segs = append(segs, segCoq(s))
+		}
+		bl := "[]"
+		if len(segs) > 0 {
+			bl = strings.Join(segs, "++")
+		}
+		var outs []string
+		for _, o := range h.Outs {
+			outs = append(outs, outCoq(o))
+		}
+		da = append(da, fmt.Sprintf("[HI (%s) [%s]]", bl, strings.Join(outs, ";")))
+		i++
+	}
+	if len(da) == 0 {
+		da = []string{"[]"}
+	}
+	var segsOut []string
+	for _, o := range cr.obs {
+		// seen: runs of (false,false) are written `SN n`
+		var seen []string
+		for i := 0; i < len(o.Seen); {
+			j := i
+			for j < len(o.Seen) && !o.Seen[j][0] && !o.Seen[j][1] {
+				j++
+			}
+			if j-i >= 2 {
+				seen = append(seen, fmt.Sprintf("SN %d", j-i))
+				i = j
+				continue
+			}
+			seen = append(seen, fmt.Sprintf("[(%s,%s)]", vgen.Bool(o.Seen[i][0]), vgen.Bool(o.Seen[i][1])))
+			i++
+		}
+		if len(seen) == 0 {
+			seen = []string{"[]"}
+		}
+		// calls: runs of GetIDs h, h+1, ... (empty heights) are written `GI h n`
+		var calls []string
+		for i := 0; i < len(o.Calls); {
+			c := o.Calls[i]
+			if !c.Get {
+				j := i
+				for j < len(o.Calls) && !o.Calls[j].Get && o.Calls[j].H == c.H+uint64(j-i) {
+					j++
+				}
+				if j-i >= 3 {
+					// the last one of the run may be followed by its Get calls: keep it out of the run
+					if j < len(o.Calls) && o.Calls[j].Get {
+						j--
+					}
+					calls = append(calls, fmt.Sprintf("GI %d %d", c.H, j-i))
+					i = j
+					continue
+				}
+				calls = append(calls, fmt.Sprintf("[CGetIDs %d]", c.H))
+			} else {
+				calls = append(calls, fmt.Sprintf("[CGet %d %d %d]", c.H, c.Off, c.Ln))
+			}
+			i++
+		}
+		if len(calls) == 0 {
+			calls = []string{"[]"}
+		}
+		segsOut = append(segsOut, fmt.Sprintf("{| ts_seen := %s;\n    ts_obs := OB %d (%s) %s %s %d |}", strings.Join(seen, "++"), o.Cursor, strings.Join(calls, "++"), evCoq(o.HEv), evCoq(o.DEv), o.Res))
+	}
+	return fmt.Sprintf("{| tc_cfg := {| c_stored := %d; c_start := %d; c_seen_h := %s; c_seen_d := %s |};\n tc_da := %s;\n tc_segs := [%s] |}",
+		rp.Stored, rp.Start, nlist(rp.SeenH), nlist(rp.SeenD), strings.Join(da, "++"), strings.Join(segsOut, ";\n  "))
+}
+
 // ---- Coq terms ----------------------------------------------------------------------------------------------
 
 func segCoq(s Seg) string {
@@ -1271,6 +1476,74 @@ func shrink(t *testing.T, p *pool, rp *Replay, sig string) *Replay {
 	return cur
 }
 
+// shrinkTicks: which channel select takes is the runtime's choice, so a candidate is tried a few times
+func shrinkTicks(t *testing.T, p *pool, rp *Replay, sig string) *Replay {
+	// a shrunk history is kept only if it fails five times out of five, so that the replay file fails reliably
+	fails := func(c *Replay) bool {
+		for try := 0; try < 5; try++ {
+			r := runCase(t, p, c)
+			if r.err != nil {
+				return false
+			}
+			hit := false
+			for _, s := range r.viol {
+				if s == sig {
+					hit = true
+				}
+			}
+			if !hit {
+				return false
+			}
+		}
+		return true
+	}
+	cur := cloneRP(rp)
+	for len(cur.History) > 1 {
+		c := cloneRP(cur)
+		c.History = c.History[:len(c.History)-1]
+		if !fails(c) {
+			break
+		}
+		cur = c
+	}
+	// fewer heights: cut from the end, then from the front (the start height moves along)
+	for step := len(cur.DA) / 2; step >= 1; step /= 2 {
+		for len(cur.DA) > step {
+			c := cloneRP(cur)
+			c.DA = c.DA[:len(c.DA)-step]
+			if !fails(c) {
+				break
+			}
+			cur = c
+		}
+	}
+	// fewer ticks, plainer heights
+	for k := range cur.DA {
+		plain := false
+		for _, o := range cur.DA[k].Outs {
+			if o.Tick || o.K != "ok" {
+				plain = true
+			}
+		}
+		if !plain && len(cur.DA[k].Blobs) == 0 {
+			continue
+		}
+		c := cloneRP(cur)
+		c.DA[k] = Height{Outs: []Out{{K: "ok"}}}
+		if fails(c) {
+			cur = c
+		}
+	}
+	for _, f := range []func(c *Replay){func(c *Replay) { c.SeenH = nil }, func(c *Replay) { c.SeenD = nil }, func(c *Replay) { c.Stored = 0 }} {
+		c := cloneRP(cur)
+		f(c)
+		if fails(c) {
+			cur = c
+		}
+	}
+	return cur
+}
+
 func caseRng(seed int64, c int) *rand.Rand { return rand.New(rand.NewSource(seed*1000003 + int64(c))) }
 
 func TestVerif(t *testing.T) {
@@ -1306,8 +1579,18 @@ func TestVerif(t *testing.T) {
 		for c := 0; c < e.N; c++ {
 			jobs = append(jobs, nil)
 		}
+		// tick scenario: one case per ten ordinary ones (at least 8)
+		nt := e.N / 10
+		if nt < 8 {
+			nt = 8
+		}
+		for c := 0; c < nt; c++ {
+			jobs = append(jobs, genTickCase(caseRng(e.Seed, 500000+c), e.Seed, 500000+c, e.Tier))
+		}
 	}
-	var cases []string
+	var cases, tcases []string
+	var tReplays []*Replay
+	tickHeights, tickTicks, tickBoth, tickIters := 0, 0, 0, 0
 	distinct := map[string]bool{}
 	gen := 0
 	heights := 0
@@ -1336,6 +1619,41 @@ func TestVerif(t *testing.T) {
 			t.Fatalf("harness error: %v", cr.err)
 		}
 		res.Evaluations++
+		if rp.Ticks {
+			res.Count("case:tick-scenario")
+			tickHeights += len(rp.DA)
+			for _, h := range rp.DA {
+				for _, o := range h.Outs {
+					if o.Tick {
+						tickTicks++
+					}
+				}
+			}
+			for _, o := range cr.obs {
+				tickIters += len(o.Seen)
+				for i, sn := range o.Seen {
+					// retrieveCh still holds a value after the select although a tick was in it before: select
+					// had both channels ready and took the token; the other order shows as a buffered tick gone
+					if i > 0 && (o.Seen[i-1][0] || o.Seen[i-1][1]) {
+						tickBoth++
+						if sn[0] {
+							res.Count("tick:select-took-token-with-tick-buffered")
+						} else {
+							res.Count("tick:select-took-tick-or-retry-call")
+						}
+					}
+				}
+				res.Count(fmt.Sprintf("result:%d", o.Res))
+			}
+			distinct["T"+tickInputKey(rp)] = true
+			for vi, sig := range cr.viol {
+				sh := shrinkTicks(t, p, rp, sig)
+				res.Violations = append(res.Violations, vgen.Violation{Signature: sig, What: cr.what[vi], Case: ji, Replay: sh})
+			}
+			tcases = append(tcases, tcaseCoq(p, rp, cr))
+			tReplays = append(tReplays, rp)
+			continue
+		}
 		heights += len(rp.DA)
 		big, poisoned := false, false
 		for _, h := range rp.DA {
@@ -1391,19 +1709,27 @@ func TestVerif(t *testing.T) {
 			sh := shrink(t, p, rp, sig)
 			res.Violations = append(res.Violations, vgen.Violation{Signature: sig, What: cr.what[vi], Case: ji, Replay: sh})
 		}
+		res.Replays[fmt.Sprint(len(cases))] = rp // keyed by the index the Coq check reports
 		cases = append(cases, cc)
-		res.Replays[fmt.Sprint(ji)] = rp
 		if len(res.Samples) < 3 && nev > 1 && ncalls > 4 && len(rp.DA) <= 3 && !big {
 			res.Samples = append(res.Samples, map[string]interface{}{"case": rp, "observed": cr.obs})
 		}
 	}
 	res.Distribution["da-heights-scripted"] = heights
+	res.Distribution["tick:da-heights-scripted"] = tickHeights
+	res.Distribution["tick:ticks-scripted"] = tickTicks
+	res.Distribution["tick:getids-calls"] = tickIters
+	res.Distribution["tick:getids-calls-after-a-buffered-or-sent-tick"] = tickBoth
+	for i, rp := range tReplays {
+		res.Replays[fmt.Sprint(len(cases)+i)] = rp // tick cases are numbered after the ordinary ones
+	}
 	res.Distinct = len(distinct)
 	res.Rule = "real non-aggregator block.Manager (NewManager) on a scripted DA double; 1-6 (thorough 1-12) DA heights from max(stored, configured start), start heights from 0 to 2^62; per height 0-7 blobs or 100-500 blobs (several chunks, incl. exact multiples of 100) mixing real proposer-signed headers/data (ed25519), forgeries (foreign key claiming the proposer's address, rejected), signed data without txs / without metadata (ignored), and 16 kinds of junk (empty, random, truncated genuine, absurd length fields, other message types, foreign / corrupted / missing signatures, foreign key types, undecodable keys, trailing garbage, text); per height 0-4 scripted fetch outcomes (listing error with plain / not-found / from-the-future / both texts, nil listing, error on chunk i, ok) or runs of 9-13 errors, then usually ok; histories of 1-6 items: wake-ups of the real RetrieveLoop under testing/synctest (80%) and direct calls of processNextDAHeaderAndData; some ids pre-marked seen. non-trivial = at least 3 DA calls and 2 heights; distinct = distinct Coq case terms"
-	res.Cases = len(cases)
+	res.Rule += "; PLUS the tick scenario (one case per ten, at least 8): 100-400 (thorough up to 900) DA heights, 3/4 empty, the rest 1-3 blobs, a third of the cases served at once throughout, otherwise 6% of the heights with 1-3 retried errors, 1% not yet there (from the future), 0.5% with 10-12 errors, 2% confirmed not-found; the loop is woken 1-4 times while quiescent and the DA double sends DA-block ticks (non-blocking sends on retrieveCh) from inside GetIDs, i.e. while iterations run and the continuation token is outstanding (one tick only / 2% / 10% / 35% / every call), so that select finds both channels ready and takes either; compared call by call with the two-channel loop model (lturn), liveness oracle: the loop goes quiet only at a height it could not pass; distinct for these = distinct scripted inputs"
+	res.Cases = len(cases) + len(tcases)
 	header := "From Coq Require Import NArith List Bool.\nFrom Verif Require Import Model.Retriever Check.RetrieverCheck.\nOpen Scope N_scope."
 	path := filepath.Join(e.Out, "cases_C09.v")
-	if err := writeCases(path, header, cases); err != nil {
+	if err := writeCases(path, header, cases, tcases); err != nil {
 		t.Fatal(err)
 	}
 	res.CaseFiles = []string{path}
@@ -1413,7 +1739,7 @@ func TestVerif(t *testing.T) {
 }
 
 // like vgen.WriteCases but without opening string_scope (the model has no strings; N literals are bare)
-func writeCases(path, header string, cases []string) error {
+func writeCases(path, header string, cases, tcases []string) error {
 	var sb strings.Builder
 	sb.WriteString(header)
 	sb.WriteString("\nImport ListNotations.\nOpen Scope list_scope.\n")
@@ -1433,6 +1759,14 @@ func writeCases(path, header string, cases []string) error {
 		all = strings.Join(names, " ++ ")
 	}
 	sb.WriteString(fmt.Sprintf("Definition cases : list rcase := %s.\n", all))
-	sb.WriteString("Definition M := Eval vm_compute in mismatches cases.\nPrint M.\nLemma cases_agree : M = [].\nProof. reflexivity. Qed.\n")
+	// tick cases: numbered after the ordinary ones
+	var tnames []string
+	for i, c := range tcases {
+		name := fmt.Sprintf("tcase_%d", i)
+		tnames = append(tnames, name)
+		sb.WriteString(fmt.Sprintf("Definition %s : tcase :=\n  %s.\n", name, c))
+	}
+	sb.WriteString(fmt.Sprintf("Definition tcases : list tcase := [%s].\n", strings.Join(tnames, "; ")))
+	sb.WriteString("Definition M := Eval vm_compute in (mismatches cases ++ tmismatches_from (N.of_nat (length cases)) tcases).\nPrint M.\nLemma cases_agree : M = [].\nProof. reflexivity. Qed.\n")
 	return os.WriteFile(path, []byte(sb.String()), 0o644)
 }
